@@ -1,5 +1,6 @@
 #!/usr/bin/env python3
-"""srcref.py -- the TRANSLATOR half of the tie between model and code, for reg_access.py.
+"""srcref.py -- the TRANSLATOR half of the tie between model and code, for reg_access.py and sim_services/_utils.py
+(MODULES below; the text that follows describes the first).
 On every run: (1) harness/py2coq.py dumps the current source of <REPO>/src/reg_access.py into a Coq term of the
 PyLite syntax (coq/pylite/PyLite.v); (2) coq/srcref/RegAccessRefine_proof.v / RegAccessRefine.v are compiled
 against that term: they prove that the source, run by the PyLite semantics, refines model/RegAccess.v method by
@@ -26,8 +27,17 @@ VERIF = os.path.dirname(HERE)
 COQ = os.path.join(VERIF, "coq")
 REPO = os.environ.get("REPO", "/repo")
 WORK = os.path.join(VERIF, ".work", "srcref")
-PROPS = ["C19", "C01", "C02"]          # the checks that report this tie
-FILES = ["RegAccessEmbed.v", "RegAccessRefine_proof.v", "RegAccessRefine.v"]
+MODULES = {
+    # the register-access queues: C19, and the hazard bookkeeping under C01/C02
+    "RegAccess": {"src": "src/reg_access.py", "term": "SRC", "gen": "RegAccessSrc.v",
+                  "files": ["RegAccessEmbed.v", "RegAccessRefine_proof.v", "RegAccessRefine.v"],
+                  "deps": ["model/RegAccess.v", "spec/QueueSpec.v", "proofs/C19_proof.v"],
+                  "props": ["C19", "C01", "C02"]},
+    # the two tests behind width (C04), memory port (C05) and the issue/advance decisions (C06, C07)
+    "SimUtils": {"src": "src/sim_services/_utils.py", "term": "SRC_UTILS", "gen": "SimUtilsSrc.v",
+                 "files": ["SimUtilsRefine.v"], "deps": [], "props": ["C04", "C05", "C06", "C07"]},
+}
+PROPS = sorted({p for m in MODULES.values() for p in m["props"]})
 
 sys.path.insert(0, HERE)
 import py2coq  # noqa: E402
@@ -45,21 +55,20 @@ def _coqc(d, f, log):
     return p.returncode == 0, p.stdout
 
 
-def check():
+def check_module(name):
     t0 = time.time()
-    src = os.path.join(REPO, "src", "reg_access.py")
-    out = {"source": src, "translator": "harness/py2coq.py", "semantics": "coq/pylite/PyLite.v",
-           "theorem_file": "coq/srcref/RegAccessRefine.v"}
+    m = MODULES[name]
+    src = os.path.join(REPO, m["src"])
+    out = {"module": name, "source": src, "translator": "harness/py2coq.py", "semantics": "coq/pylite/PyLite.v",
+           "theorem_file": "coq/srcref/" + m["files"][-1]}
     try:
-        text = py2coq.translate(open(src, encoding="utf-8").read(), "SRC")
+        text = py2coq.translate(open(src, encoding="utf-8").read(), m["term"])
     except (py2coq.Unsupported, SyntaxError, OSError) as e:
         out.update(status="untranslatable", detail=str(e)[:300])
         return out
-    h = hashlib.sha256(text.encode())
-    for f in [os.path.join(COQ, "srcref", x) for x in FILES] + [os.path.join(COQ, "pylite", "PyLite.v"),
-                                                                 os.path.join(COQ, "model", "RegAccess.v"),
-                                                                 os.path.join(COQ, "spec", "QueueSpec.v"),
-                                                                 os.path.join(COQ, "proofs", "C19_proof.v")]:
+    h = hashlib.sha256((name + text).encode())
+    for f in [os.path.join(COQ, "srcref", x) for x in m["files"]] + [os.path.join(COQ, "pylite", "PyLite.v")] + \
+            [os.path.join(COQ, x) for x in m["deps"]]:
         h.update(open(f, "rb").read())
     key = h.hexdigest()[:20]
     out["source_term_sha"] = hashlib.sha256(text.encode()).hexdigest()[:16]
@@ -74,17 +83,17 @@ def check():
         out["cached_compilation"] = True
         return out
     os.makedirs(d, exist_ok=True)
-    open(os.path.join(d, "RegAccessSrc.v"), "w").write(text)
-    for f in FILES:
+    open(os.path.join(d, m["gen"]), "w").write(text)
+    for f in m["files"]:
         shutil.copy(os.path.join(COQ, "srcref", f), d)
     log, ok, stdout = [], True, ""
     if not os.path.exists(os.path.join(COQ, "pylite", "PyLite.vo")):
         ok, _ = _coqc(os.path.join(COQ, "pylite"), "PyLite.v", log)
-    for f in ["RegAccessSrc.v"] + FILES:
+    for f in [m["gen"]] + m["files"]:
         if not ok:
             break
         ok, stdout = _coqc(d, f, log)
-    thm_src = open(os.path.join(COQ, "srcref", "RegAccessRefine.v")).read()
+    thm_src = open(os.path.join(COQ, "srcref", m["files"][-1])).read()
     names = re.findall(r"^Theorem\s+(\w+)", thm_src, flags=re.M)
     closed = stdout.count("Closed under the global context") if ok else 0
     res = {"status": "proved" if ok and closed == len(names) else "proof-broken",
@@ -92,12 +101,21 @@ def check():
     json.dump(res, open(res_file, "w"), indent=1)
     # keep the cache small
     olds = sorted((os.path.getmtime(os.path.join(WORK, x)), x) for x in os.listdir(WORK) if not x.startswith("."))
-    for _, x in olds[:-8]:
+    for _, x in olds[:-12]:
         shutil.rmtree(os.path.join(WORK, x), ignore_errors=True)
     out.update(res)
     return out
 
 
+def check(pid=None):
+    """results of the modules whose tie the check of property `pid` reports (all modules when pid is None)"""
+    return [check_module(n) for n, m in MODULES.items() if pid is None or pid in m["props"]]
+
+
+def all_proved(results):
+    return all(r.get("status") == "proved" for r in results)
+
+
 if __name__ == "__main__":
-    r = check()
-    print(json.dumps(r, indent=1))
+    for r in check():
+        print(json.dumps({k: v for k, v in r.items() if k != "log" or r.get("status") != "proved"}, indent=1))
